@@ -235,10 +235,24 @@ def worker(ctx, job):
             with open(pf, "w") as fh:
                 json.dump(prog, fh)
             spec = {"roots": roots, "actors": [fsx.actor(flavour, "M", pf, cwd=cwd)], "monitor": True, "timeout_ms": 15000}
+            modes_box = {"m": modes_before}
+
             def _once():
                 fsutil.restore(real_cache, init)
                 if init is None:
                     fsutil.wipe(real_cache)
+                # restoring re-creates the files: an outside file that is meant to SHARE the content file's inode is linked anew
+                if temp in ("readonly-extracted", "extracted-and-edited"):
+                    cp2 = os.path.join(real_cache, ref.content_rel(sri(OLD)))
+                    ex2 = os.path.join(outside, "extracted-earlier" if temp == "readonly-extracted" else "extracted-and-edited")
+                    if os.path.lexists(ex2):
+                        os.chmod(ex2, 0o644)
+                        os.unlink(ex2)
+                    if os.path.isfile(cp2):
+                        os.link(cp2, ex2)
+                        if temp == "readonly-extracted":
+                            os.chmod(ex2, 0o444)
+                    modes_box["m"] = _modes(outside)     # (restoring does not keep permission bits: the reference is taken now)
                 return fsx.run(spec, ctx.dir)
             rep = fsx.confirmed(_once)
             res["evals"] += 1
@@ -322,6 +336,7 @@ def worker(ctx, job):
             b2.pop("dest", None)
             if after_out != b2:
                 V.violation(res, "monitor:%s/%s:outside-changed" % (op, side), "directory outside the cache changed: %s -> %s" % (sorted(b2), sorted(after_out or {})), replay)
+            modes_before = modes_box["m"]
             modes_after = _modes(outside)
             changed = sorted(k for k in modes_before if k in modes_after and modes_after[k] != modes_before[k] and k != "dest")
             if changed:
